@@ -6,6 +6,7 @@
 //   group 3  ufunc / reduce / accumulate / outer / matmul, depth 1
 //   group 6  column-major leaves; raw-triple constructors (c13_mkarr), compute_offset (c13_koff)
 //   groups 7, 8  second halves of the depth 2 / depth 3 compositions
+//   group 9  binary ufuncs with BOTH operands views, reductions over them
 #include "c13_kernel.hpp"
 #include "nmtools/array/view/cumsum.hpp"
 #include "nmtools/array/view/hstack.hpp"
@@ -100,6 +101,14 @@ static std::string kern(const Args& a) {
     PROG2("rep_tr_add",  view::repeat(view::transpose(view::add(x0, x1), AXES), (size_t)integer(a,"r"), AXIS))
     // a view operand that is not the first operand (known finding extract.nonfirst-view-operand)
     PROG1("neg_sub_max", view::negative(view::subtract(x0, view::reduce_maximum(x0, AXIS, KEEP))))
+#elif C13_GROUP == 9
+    // both operands of a broadcasting binary ufunc are views / a reduction over such a node (depth 2, 3):
+    // device path = known finding extract.nonfirst-view-operand, OpenCL path (direct view call) in-domain
+    PROG2("add_tr_neg",      view::add(view::transpose(x0, AXES), view::negative(x1)))
+    PROG2("mul_sum_sum",     view::multiply(view::reduce_add(x0, AXIS, KEEP), view::reduce_add(x1, AXIS, KEEP)))
+    PROG2("sum_add_neg_neg", view::reduce_add(view::add(view::negative(x0), view::negative(x1)), AXIS, DROP))
+    PROG4("max_mul_add",     view::maximum(view::multiply(x0, x1), view::add(x2, x3)))
+    PROG4("neg_add_mul_mul", view::negative(view::add(view::multiply(x0, x1), view::multiply(x2, x3))))
 #elif C13_GROUP == 6
     // same programs over column-major host arrays: context_t::create_array accepts any non-view ndarray
     PROG1("transpose_col", view::transpose(x0, AXES))
